@@ -4,7 +4,6 @@ exhaustive model; prints its finite domain, which the driver then enumerates thr
 Trace_Impact (TLC trace validation)."""
 import json
 import vlib
-from props import _mcfast
 
 KEY = ("op", "L", "S", "pL", "pS", "dL", "dS", "exp", "pos", "neg", "isLong", "hasvi", "VL", "VS")
 
@@ -48,7 +47,7 @@ def run(ctx):
         return ctx.finish("exploration", "replay of one recorded case", exhaustive=False)
     # 1. the design satisfies the monitors on the whole bounded domain, except MonImproved on the recorded
     #    finding class (asserted to fail on a concrete witness); the round-trip slack is shown tight
-    r = _mcfast.model_check(ctx, "MC_Impact", cfg="MC_Impact" if ctx.quick else "MC_Impact_thorough",
+    r = ctx.model_check("MC_Impact", coverage=False, cfg="MC_Impact" if ctx.quick else "MC_Impact_thorough",
                             workers=8, timeout=900 if ctx.quick else 1500)
     dom = r.tagged("DOM")
     if not dom:
@@ -64,7 +63,7 @@ def run(ctx):
     if len(ev) != r.distinct - n_init:
         raise vlib.ToolError("driver enumerated %d tuples, the bounded model has %d" % (len(ev), r.distinct - n_init))
     # 3. seeded random calls (deltas biased to cancelling / crossing the imbalance); Unit = 100 in thorough
-    n = 40000 if ctx.quick else 300000
+    n = 20000 if ctx.quick else 300000
     tr2 = ctx.path("random.ndjson")
     ctx.run_bin("c03", ["random", "--seed", ctx.seed, "--n", n, "--out", tr2])
     ev2 = judge(ctx, tr2, "h-model c03 random")
